@@ -54,7 +54,7 @@ def gen(rng, tier):
         plain = xmlgen.document_xml(doc, plain_ns)
         for ns in SPELLINGS + [defgen.rnd_prefix(rng)]:
             mode = rng.choice(["none", "ws", "comments", "comments"])
-            variant = xmlgen.document_xml(doc, ns, deco=mk_deco(rng, mode))
+            variant = xmlgen.document_xml(doc, ns, deco=mk_deco(rng, mode), omit_seed=rng.choice([None, rng.randrange(1 << 30)]))
             hist = []
             for _h in range(rng.choice([0, 1, 2, 3])):
                 r = rng.random()
